@@ -245,6 +245,8 @@ type exprPrinterv2 struct {
 }
 
 func (p *exprPrinterv2) printExpr(e ast.Expr) string {
-	pos := p.g.posInfo(e)
+	// The position in the file itself, ignoring //line directives, which
+	// can give two expressions the same adjusted position.
+	pos := p.g.fset.PositionFor(e.Pos(), false)
 	return fmt.Sprintf("_%d_%d", pos.Line, pos.Column)
 }
